@@ -35,7 +35,9 @@ def sso(*, a=None, e=None, i=None):
     elif a is None and e is not None and i is not None:
         return (-3 / 2 * cst * np.cos(i) / (ω_e * (1 - e ** 2) ** 2)) ** (2 / 7)
     elif e is None and a is not None and i is not None:
-        return np.sqrt(1 - np.sqrt(-3 / 2 * cst * np.cos(i) / (ω_e * a ** (7 / 2))))
+        # for a circular orbit, rounding errors may lead to a slightly negative value
+        e2 = 1 - np.sqrt(-3 / 2 * cst * np.cos(i) / (ω_e * a ** (7 / 2)))
+        return np.sqrt(max(e2, 0.0)) if abs(e2) < 1e-12 else np.sqrt(e2)
     else:
         raise ValueError("Unknown computation mode")
 
